@@ -362,3 +362,51 @@ B("benign-guard-negated", ["C18"], OG,
                 self.cost_list.pop(step_time)""",
   """            if not step_time >= len(self.cost_list):
                 self.cost_list.pop(step_time)""")
+
+# ---------------------------------------------------------------------------------------- C10
+M("C10-allocate-regardless", "C10", "R10.1", PJ,
+  """            if working:
+                self.__allocate(task_priority_rule=task_priority_rule)""",
+  """            self.__allocate(task_priority_rule=task_priority_rule)""")
+M("C10-charge-during-absence", "C10", "R10.1", PJ,
+  "self.organization.add_labor_cost(add_zero_to_all_workers=True, add_zero_to_all_facilities=True)",
+  "self.organization.add_labor_cost(only_working=True)")
+M("C10-perform-all-during-absence", "C10", "R10.1", PJ,
+  "                self.workflow.perform(self.time, only_auto_task=True)",
+  "                self.workflow.perform(self.time)")
+M("C10-log-free-instead-of-absence", "C10", "R10.3", FA,
+  """            self.state_record_list.append(BaseFacilityState.ABSENCE)""",
+  """            self.state_record_list.append(BaseFacilityState.FREE)""")
+M("C10-progress-ignores-absence", "C10", "R10.2", WK,
+  """        if self.state == BaseWorkerState.ABSENCE:
+            return 0.0
+        skill_mean = self.workamount_skill_mean_map[task_name]""",
+  """        skill_mean = self.workamount_skill_mean_map[task_name]""")
+M("C10-absence-setter-skips-facilities", "C10", "R10.1", OG,
+  """        for workplace in self.workplace_list:
+            workplace.set_absence_state_to_all_facilities()""",
+  """        for workplace in self.workplace_list[:0]:
+            workplace.set_absence_state_to_all_facilities()""")
+M("C10-only-auto-ignored", "C10", "R10.1", WF,
+  """            if only_auto_task:
+                if task.auto_task:
+                    task.perform(time, seed=seed)""",
+  """            if only_auto_task:
+                task.perform(time, seed=seed)""")
+M("C10-working-flag-inverted", "C10", "R10.1", PJ,
+  """            if self.time in absence_time_list:
+                working = False""",
+  """            if self.time + 1 in absence_time_list:
+                working = False""")
+M("C10-auto-perform-without-flag", "C10", "R10.1", PJ,
+  """            elif perform_auto_task_while_absence_time:
+                self.workflow.perform(self.time, only_auto_task=True)""",
+  """            else:
+                self.workflow.perform(self.time, only_auto_task=True)""")
+M("C10-absent-worker-stays-working", "C10", "R10.2", WK,
+  """        if step_time in self.absence_time_list:
+            self.state = BaseWorkerState.ABSENCE
+        elif len(self.assigned_task_list) == 0:""",
+  """        if len(self.assigned_task_list) == 0 and step_time in self.absence_time_list:
+            self.state = BaseWorkerState.ABSENCE
+        elif len(self.assigned_task_list) == 0:""")
